@@ -40,9 +40,12 @@ def gen_cases(rng, tier):
             ents.append([ix, rng.randint(-2, 2) or 1, rng.randint(-2, 2)])
         cases.append({'kind': 'rdo', 'norb': norb, 'n': na + nb, 'sz': na - nb,
                       'vec': fqeio.random_state(rng, norb, keys, density=0.9, amp=2), 'A': ents})
-    for _ in range(6 if tier == 'quick' else 40):
+    # factorisation cases need no model query (milliseconds each): many of them, because the singular values of an
+    # antisymmetric generator come in degenerate pairs and defects in the degenerate-subspace handling need a
+    # numerical coincidence (fix d5ddbdb: about 1 generator in 50 at n = 3)
+    for _ in range(150 if tier == 'quick' else 600):
         cases.append({'kind': 'factor', 'n': rng.randint(2, 4), 'seed': rng.randrange(10 ** 6),
-                      'method': rng.choice(['svd', 'takagi']), 'cutoff': rng.choice([None, None, None, 2])})
+                      'method': rng.choice(['svd', 'takagi', 'takagi']), 'cutoff': rng.choice([None, None, None, 2])})
     return cases
 
 
